@@ -20,6 +20,7 @@ import (
 	envoy_network_rbac_v3 "github.com/envoyproxy/go-control-plane/envoy/extensions/filters/network/rbac/v3"
 	"google.golang.org/protobuf/encoding/protojson"
 
+	"github.com/hashicorp/consul/agent/connect"
 	"github.com/hashicorp/consul/agent/structs"
 	"github.com/hashicorp/consul/proto/private/pbpeering"
 	"github.com/hashicorp/consul/zzverif/core"
@@ -356,21 +357,41 @@ type zvAttr struct {
 	done     []bool
 }
 
-func (a *zvAttr) attribute(cl zvCaller, r *zvReq, refAllow bool) (string, string) {
+func (a *zvAttr) variant(i int) (*zvCase, *envoy_rbac_v3.RBAC) {
 	if a.done == nil {
 		n := len(zvSanVariants)
 		a.cases, a.rules, a.done = make([]*zvCase, n), make([]*envoy_rbac_v3.RBAC, n), make([]bool, n)
 	}
-	for i, v := range zvSanVariants {
-		if !a.done[i] {
-			a.done[i] = true
-			sc := a.c.sanitized(v.set)
-			rules, err, pan := sc.rules(a.defAllow, a.http, a.order)
-			if err == nil && pan == "" {
-				a.cases[i], a.rules[i] = sc, rules
-			}
+	if !a.done[i] {
+		a.done[i] = true
+		sc := a.c.sanitized(zvSanVariants[i].set)
+		rules, err, pan := sc.rules(a.defAllow, a.http, a.order)
+		if err == nil && pan == "" {
+			a.cases[i], a.rules[i] = sc, rules
 		}
-		sc, rules := a.cases[i], a.rules[i]
+	}
+	return a.cases[i], a.rules[i]
+}
+
+// attributeInvalid: which part's sanitization makes every emitted regex compile?
+func (a *zvAttr) attributeInvalid(cl zvCaller, r *zvReq) string {
+	for i, v := range zvSanVariants {
+		sc, rules := a.variant(i)
+		if sc == nil {
+			continue
+		}
+		env := zvNewEnv(a.http, "", nil, "")
+		zvEvalOne(env, rules, sc, a.http, cl, r, v.set) // the evaluator walks (and compiles) every matcher
+		if len(env.badRegex) == 0 {
+			return v.name
+		}
+	}
+	return ""
+}
+
+func (a *zvAttr) attribute(cl zvCaller, r *zvReq, refAllow bool) (string, string) {
+	for i, v := range zvSanVariants {
+		sc, rules := a.variant(i)
 		if sc == nil {
 			continue
 		}
@@ -407,9 +428,55 @@ func (c *zvCase) isPeerIdentity(uri string) bool {
 	return false
 }
 
+// crossCheck: for a well-formed local or peered service identity, the first intention of consul's
+// precedence-sorted list that consul's own connect.IntentionMatch accepts must be the reference's
+// winner ("" = agreement or not applicable).
+func (c *zvCase) crossCheck(sorted structs.Intentions, ref zvRef) string {
+	id, ok := zvParseSvc(ref.Eff)
+	if !ok || id.ns != "default" || sorted == nil {
+		return ""
+	}
+	peer, known := "", false
+	if id.td == c.LocalTD && id.ap == "default" {
+		known = true
+	} else {
+		for _, b := range c.Bundles {
+			ap := strings.ToLower(b.Part)
+			if ap == "" {
+				ap = "default"
+			}
+			if id.td == b.TD && id.ap == ap {
+				peer, known = b.Peer, true
+			}
+		}
+	}
+	if !known {
+		return ""
+	}
+	got := "none"
+	for _, ixn := range sorted {
+		if connect.IntentionMatch(id.svc, "default", "default", peer, ixn, structs.IntentionMatchSource) {
+			got = ixn.SourceName + "|" + ixn.SourcePeer + "|" + ixn.DestinationName
+			break
+		}
+	}
+	want := "none"
+	if ref.Winner >= 0 {
+		w := c.Ixns[ref.Winner]
+		want = w.Src + "|" + w.Peer + "|" + w.Dst
+	}
+	if got != want {
+		return fmt.Sprintf("reference winner %s but consul's IntentionMatch over the precedence-sorted list picks %s", want, got)
+	}
+	return ""
+}
+
 func zvRunSet(idx int, rng *core.Rand, wantSample bool) *zvRec {
+	return zvRunCase(fmt.Sprintf("set %d", idx), zvGenCase(rng), rng, wantSample)
+}
+
+func zvRunCase(name string, c *zvCase, rng *core.Rand, wantSample bool) *zvRec {
 	rec := zvNewRec()
-	c := zvGenCase(rng)
 	reqs := c.zvRequests(8, rng.Intn)
 	order := rng.Perm(len(c.Ixns))
 	caseJSON := core.JSON(c)
@@ -425,10 +492,17 @@ func zvRunSet(idx int, rng *core.Rand, wantSample bool) *zvRec {
 			rec.count("intentions:source-name-with-regex-metacharacter", 1)
 		}
 	}
+	// consul's own view of the same set (what Intention.Check / IntentionDecision walk): the real
+	// intentions in the real precedence order; used to cross-check the reference's winner
+	var sorted structs.Intentions
+	if ixns, _, err := c.build(order); err == nil {
+		sorted = structs.Intentions(ixns)
+		sort.Sort(structs.IntentionPrecedenceSorter(sorted))
+	}
 	for _, http := range []bool{false, true} {
 		callers := c.zvCallers(http)
 		for _, defAllow := range []bool{false, true} {
-			cfgName := fmt.Sprintf("set %d %s default-%s", idx, zvLsnName(http), zvDefName(defAllow))
+			cfgName := fmt.Sprintf("%s %s default-%s", name, zvLsnName(http), zvDefName(defAllow))
 			rules, err, pan := c.rules(defAllow, http, order)
 			rec.evals++
 			rec.count("configs:"+zvLsnName(http)+":default-"+zvDefName(defAllow), 1)
@@ -469,7 +543,7 @@ func zvRunSet(idx int, rng *core.Rand, wantSample bool) *zvRec {
 					if len(env.badRegex) > 0 {
 						// Envoy rejects a listener carrying an invalid regex: no policy is enforced at all
 						invalid = true
-						part, _ := attr.attribute(cl, r, ref.Allow)
+						part := attr.attributeInvalid(cl, r)
 						key := "C14:translation:invalid-regex"
 						if part != "" {
 							key = "C14:spiffe-pattern:unescaped-regex-meta:" + part + ":invalid-regex"
@@ -498,6 +572,13 @@ func zvRunSet(idx int, rng *core.Rand, wantSample bool) *zvRec {
 						continue
 					}
 					rec.dist("caller-class", cl.Class)
+					if !http {
+						if d := c.crossCheck(sorted, ref); d != "" {
+							rec.inconcl = append(rec.inconcl, cfgName+": caller "+conn+": "+d)
+							rec.count("reference-vs-consul-matcher:disagreements", 1)
+							continue
+						}
+					}
 					if ref.Allow {
 						sawAllow = true
 						rec.count("reference:allow", 1)
@@ -545,9 +626,21 @@ func zvRunSet(idx int, rng *core.Rand, wantSample bool) *zvRec {
 					}
 					sort.Strings(also)
 					verb := map[bool]string{true: "allows", false: "denies"}
+					// precedence order and source specificity disagree: the winner has a wildcard source (and an
+					// exact destination) while a lower-precedence matching intention names the source exactly
+					inversion := false
+					if ref.Winner >= 0 && c.Ixns[ref.Winner].Src == "*" {
+						for _, m := range ref.Matching {
+							if m != ref.Winner && c.Ixns[m].Src != "*" {
+								inversion = true
+							}
+						}
+					}
 					var key string
 					if part != "" {
 						key = "C14:spiffe-pattern:unescaped-regex-meta:" + part
+					} else if inversion {
+						key = "C14:source-precedence:wildcard-source-exact-destination-over-exact-source-wildcard-destination:lower-precedence-intention-enforced"
 					} else {
 						key = fmt.Sprintf("C14:precedence:%s:winner=%s:also-matching=[%s]:rbac-%s", zvLsnName(http), wk, strings.Join(also, ","), verb[got])
 					}
@@ -614,6 +707,39 @@ func TestZZVerifC14(t *testing.T) {
 	if !core.Thorough() && workers > 4 {
 		workers = 4
 	}
+	// ---- Part A: every set of <= 2 L4 intentions over a reduced alphabet (smallest witnesses first)
+	var alpha []zvIxn
+	for _, src := range []string{"web", "web.v1", "*"} {
+		for _, peer := range []string{"", "peerA"} {
+			for _, dst := range []string{"api", "*"} {
+				for _, act := range []string{"allow", "deny"} {
+					alpha = append(alpha, zvIxn{Src: src, Peer: peer, Dst: dst, Action: act})
+				}
+			}
+		}
+	}
+	var enum []*zvCase
+	mk := func(ix ...zvIxn) {
+		enum = append(enum, &zvCase{LocalTD: "test.consul", Bundles: []zvBundle{{Peer: "peerA", TD: "peera.consul"}}, Ixns: ix})
+	}
+	for i := range alpha {
+		mk(alpha[i])
+	}
+	for i := range alpha {
+		for j := i + 1; j < len(alpha); j++ {
+			a, b := alpha[i], alpha[j]
+			if a.Src == b.Src && a.Peer == b.Peer && a.Dst == b.Dst {
+				continue // the same source->destination pair cannot be defined twice
+			}
+			mk(a, b)
+		}
+	}
+	for i, c := range enum {
+		zvRunCase(fmt.Sprintf("enum %d", i), c, root.Fork(uint64(1_000_000+i)), false).mergeInto(run)
+	}
+	run.CountN("enumerated-sets", len(enum))
+
+	// ---- Part B: PRNG sets
 	const chunk = 64
 	for base := 0; base < nsets && run.Violations() <= 30; base += chunk {
 		end := base + chunk
@@ -637,15 +763,18 @@ func TestZZVerifC14(t *testing.T) {
 			r.mergeInto(run)
 		}
 	}
-	run.Floor("intention-sets", nsets*9/10)
+	run.Floor("intention-sets", nsets)
+	run.Floor("enumerated-sets", 250)
 	run.Floor("configs:decided", nsets*3)
-	run.Floor("comparisons", nsets*500)
-	run.Floor("precedence-decided-among-several", nsets*20)
-	run.Floor("l7:later-permission-decides", nsets/4)
-	run.Floor("l7:no-permission-matches", nsets/4)
-	run.FloorDistinct("winner-kind", 8)
-	run.FloorDistinct("caller-class", 20)
-	run.FloorDistinct("proto-construct", 14)
+	run.Floor("comparisons", nsets*600)
+	run.Floor("precedence-decided-among-several", nsets*12)
+	run.Floor("l7:first-permission-decides", nsets*6)
+	run.Floor("l7:later-permission-decides", nsets*3)
+	run.Floor("l7:no-permission-matches", nsets*8)
+	run.Floor("l7:on-tcp-listener", nsets)
+	run.FloorDistinct("winner-kind", 11)
+	run.FloorDistinct("caller-class", 25)
+	run.FloorDistinct("proto-construct", 18)
 	if run.Finish() == 1 {
 		t.Fail()
 	}
